@@ -113,6 +113,15 @@ func (s *shutdownContext) handleProcessExit(termination supvmodel.ProcessTermina
 	close(exitedChannel)
 }
 
+// handleLateProcessExit publishes the exit of a process of a previous generation
+// (one the shutdown of that generation stopped waiting for), so that later
+// shutdowns do not wait for it again.
+func (s *shutdownContext) handleLateProcessExit(name string) {
+	if exitedChannel, found := s.getExitedChannel(name); found {
+		close(exitedChannel)
+	}
+}
+
 func (s *shutdownContext) getExitedChannel(name string) (chan struct{}, bool) {
 	s.runtimeDomainExitedMutex.Lock()
 	defer s.runtimeDomainExitedMutex.Unlock()
